@@ -329,7 +329,8 @@ Pop == /\ stage = "build" /\ Len(scope) > Cur.sd
 (* build_graph: a sub-builder = a new frame with its own node counter; the scope stack is copied *)
 NewFrame(kind, pend) == [fid |-> fidc + 1, kind |-> kind, stmts |-> <<>>, nodes |-> <<>>, nn |-> 0, sd |-> Len(scope), pend |-> pend]
 MayOpen(kd) == stage = "build" /\ kd \in Kinds /\ Depth <= MaxDepth /\ nc + 1 < MaxCalls
-RenameV(vs, v, nm) == [vs EXCEPT ![v].nm = nm, ![v].dn = nm]       \* build_graph: returned_val.name = declared_val.name
+\* build_graph: returned_val.name = declared_val.name, and the declared type / shape are put on the returned value
+RenameV(vs, v, nm) == [vs EXCEPT ![v].nm = nm, ![v].dn = nm, ![v].tk = TRUE]
 Blk(ins, body, res, nodes) == [ins |-> ins, body |-> body, res |-> res, g |-> [iv |-> ins, nodes |-> nodes, ov |-> res]]
 StmtBlk(b) == [ins |-> b.ins, body |-> b.body, res |-> b.res]
 PopTo(parent) == SubSeq(frames, 1, Depth - 2) \o <<parent>>
@@ -355,7 +356,7 @@ CloseElseNew(r) ==
       args == <<AV(c)>>
       st == AdaptArgs(Sigs["If"], args, 1, St0(Parent, vals2, cache, gn))
       ot == <<[k \in 1..K |-> IF vals[c].ev[k].data[1] # 0 THEN vals[tr].ev[k] ELSE vals[r].ev[k]]>>
-      e == EmitNode("If", "If", "", st, 1, DefSpec, Tk(args) /\ vals[tr].tk /\ vals[r].tk, ot, <<tb.g, eb.g>>)
+      e == EmitNode("If", "If", "", st, 1, DefSpec, Tk(args), ot, <<tb.g, eb.g>>)     \* branch outputs carry declared types
       stmt == Stmt(Cur.pend.k, "if", "If", args, <<"">>, NoAt, e.ov, DefSpec, 0, <<StmtBlk(tb), StmtBlk(eb)>>, 0, "", "")
   IN [ok |-> \A k \in 1..K : SameTS(vals[tr].ev[k], vals[r].ev[k]),
       vals |-> e.vals, cache |-> e.cache, gn |-> e.gn,
@@ -398,7 +399,7 @@ CloseLoopNew(r, sc) ==
       ok == /\ \A k \in 1..K : SameTS(vals[r].ev[k], vals[p.a].ev[k])
             /\ \A i \in 1..Len(ot) : \A k \in 1..K : OkT(ot[i][k])
       st == AdaptArgs(Sigs["Loop"], args, 1, St0(Parent, v2, e1.cache, e1.gn))
-      e == EmitNode("Loop", "Loop", "", st, Len(ot), os, Tk(args) /\ \A i \in 1..Len(res) : v2[res[i]].tk, ot, <<blk.g>>)
+      e == EmitNode("Loop", "Loop", "", st, Len(ot), os, Tk(args), ot, <<blk.g>>)
       stmt == Stmt(p.k, "loop", "Loop", args, Pdt(Sigs["Loop"], args), NoAt, e.ov, os, 0, <<StmtBlk(blk)>>, 0, "", "")
   IN IF ~ok THEN [ok |-> FALSE]
      ELSE [ok |-> TRUE, vals |-> e.vals, cache |-> e.cache, gn |-> e.gn,
@@ -433,7 +434,7 @@ CloseScanNew(r, sc) ==
       ok == /\ \A k \in 1..K : SameTS(vals[r].ev[k], vals[p.a].ev[k])
             /\ \A i \in 1..2 : \A k \in 1..K : OkT(ot[i][k])
       st == AdaptArgs(Sigs["Scan"], args, 1, St0(Parent, v2, cache, gn))
-      e == EmitNode("Scan", "Scan", "", st, 2, os, Tk(args) /\ vals[r].tk /\ vals[sc].tk, ot, <<blk.g>>)
+      e == EmitNode("Scan", "Scan", "", st, 2, os, Tk(args), ot, <<blk.g>>)
       stmt == Stmt(p.k, "scan", "Scan", args, <<"", "">>, at, e.ov, os, 0, <<StmtBlk(blk)>>, 0, "", "")
   IN IF ~ok THEN [ok |-> FALSE]
      ELSE [ok |-> TRUE, vals |-> e.vals, cache |-> e.cache, gn |-> e.gn,
@@ -557,15 +558,22 @@ ResNodes(nodes, env, design) ==
           /\ ResSubs(h.subs)
           /\ ResNodes(Tail(nodes), env \o [i \in 1..Len(h.ov) |-> <<NameOf(h.ov[i], design), h.ov[i]>>], design)
 \* no definition (node output, subgraph input) repeats a name visible at that point (ONNX: the model is invalid)
-RECURSIVE NoShadow(_, _, _)
-NoShadow(nodes, seen, design) ==
-  IF nodes = <<>> THEN TRUE
-  ELSE LET h == Head(nodes)
-           outs == {NameOf(h.ov[i], design) : i \in 1..Len(h.ov)}
+\* A subgraph may not define a name that is visible around it: the enclosing graphs' inputs / initializers and the outputs of
+\* EVERY other node of the graph that holds it (onnxruntime also counts the nodes that come later), only the outputs of the
+\* node carrying the subgraph itself are tolerated.
+OutsOf(nd, design) == {NameOf(nd.ov[i], design) : i \in 1..Len(nd.ov)}
+RECURSIVE NoShadowFrom(_, _, _, _, _)
+NoShadow(nodes, outer, design) == NoShadowFrom(nodes, 1, outer, UNION {OutsOf(nodes[j], design) : j \in 1..Len(nodes)}, design)
+NoShadowFrom(nodes, j, seen, allouts, design) ==
+  IF j > Len(nodes) THEN TRUE
+  ELSE LET h == nodes[j]
+           outs == OutsOf(h, design)
+           others == UNION {OutsOf(nodes[m], design) : m \in (1..Len(nodes)) \ {j}}
            RECURSIVE ShSubs(_)
-           ShSubs(ss) == ss = <<>> \/ ((LET ins == {NameOf(Head(ss).iv[i], design) : i \in 1..Len(Head(ss).iv)} IN
-                                           ins \cap seen = {} /\ NoShadow(Head(ss).nodes, seen \cup ins, design)) /\ ShSubs(Tail(ss)))
-       IN outs \cap seen = {} /\ Cardinality(outs) = Len(h.ov) /\ ShSubs(h.subs) /\ NoShadow(Tail(nodes), seen \cup outs, design)
+           ShSubs(ss) == ss = <<>> \/ ((LET ins == {NameOf(Head(ss).iv[i], design) : i \in 1..Len(Head(ss).iv)}
+                                            around == seen \cup others
+                                        IN ins \cap around = {} /\ NoShadow(Head(ss).nodes, around \cup ins, design)) /\ ShSubs(Tail(ss)))
+       IN outs \cap seen = {} /\ Cardinality(outs) = Len(h.ov) /\ ShSubs(h.subs) /\ NoShadowFrom(nodes, j + 1, seen \cup outs, allouts, design)
 Imports == <<<<"", 21>>>> \o [i \in 1..Len(Funcs) |-> <<Funcs[i].domain, 1>>]
 GraphOK(nodes, outs, design) ==
   [wf |-> WFWhy(ProjMain(nodes, outs, design), Imports),
